@@ -171,10 +171,10 @@ Proof.
 Qed.
 
 Theorem g_matricize_eq (t : tensor) rows cols :
-  g_matricize (plain d) t (map Z.of_nat rows) (option_map (map Z.of_nat) cols) = matricize d t rows cols.
+  g_matricize (plain d) t (PSeq (map Z.of_nat rows)) (option_map (fun c => PSeq (map Z.of_nat c)) cols) = matricize d t rows cols.
 Proof.
-  unfold g_matricize, matricize, py_shape, py_ndim. cbv zeta. cbn [b_shape b_transpose b_reshape plain].
-  destruct cols as [c|]; cbn [option_map].
+  unfold g_matricize, matricize, py_shape, py_ndim. cbv zeta. cbn [b_shape b_transpose b_reshape plain py_list rcatch rbind].
+  destruct cols as [c|]; cbn [option_map py_list rcatch rbind].
   - fold (ndim t). rewrite sorted_check.
     destruct (is_permb (ndim t) (rows ++ c)) eqn:E; cbn [negb rbind]; [|reflexivity].
     rewrite matricize_tail; [now rewrite E|].
